@@ -41,16 +41,18 @@ import (
 
 // Served is one way a kind is served: its main store, and its status store when a status subresource exists.
 type Served struct {
-	Name       string // label used in cases, e.g. "upstreamclusters" or "probe:ratelimitconditions+status"
-	Resource   string
-	Registered bool // true: exactly what rest.go registers; false: a probe registration built with the same functions
-	Main       *genericregistry.Store
-	Status     *genericregistry.Store // nil: no status subresource served
-	Mem        *memStore
-	HubGV      schema.GroupVersion
-	Kind       string
-	Namespaced bool
-	MediaType  string
+	Name        string // label used in cases, e.g. "upstreamclusters" or "probe:ratelimitconditions+status"
+	Resource    string
+	Registered  bool // true: exactly what rest.go registers; false: a probe registration built with the same functions
+	Main        *genericregistry.Store
+	Status      *genericregistry.Store // nil: no status subresource served
+	MainREST    rest.Storage           // what the API installer would call
+	StatusRESTv rest.Storage
+	Mem         *memStore
+	HubGV       schema.GroupVersion
+	Kind        string
+	Namespaced  bool
+	MediaType   string
 }
 
 type memGetter struct {
@@ -152,7 +154,7 @@ func NewPlane(mediaType string) (*Plane, error) {
 			if main == nil {
 				return nil, fmt.Errorf("storage of %s is a %T, not a generic store", r, m[r])
 			}
-			s := &Served{Name: r, Resource: r, Registered: true, Main: main, MediaType: mediaType}
+			s := &Served{Name: r, Resource: r, Registered: true, Main: main, MainREST: m[r], MediaType: mediaType}
 			for _, sub := range names {
 				if strings.HasPrefix(sub, r+"/") && sub != r+"/status" {
 					return nil, fmt.Errorf("unexpected subresource %s: the harness only knows status", sub)
@@ -160,6 +162,7 @@ func NewPlane(mediaType string) (*Plane, error) {
 			}
 			if st, ok := m[r+"/status"]; ok {
 				s.Status = storeOf(st)
+				s.StatusRESTv = st
 				if s.Status == nil {
 					return nil, fmt.Errorf("status storage of %s is a %T", r, st)
 				}
@@ -209,9 +212,10 @@ func (p *Plane) AddProbe(name string, gvkr runtimeschema.GroupVersionKindResourc
 	if err != nil {
 		return nil, err
 	}
-	s := &Served{Name: name, Resource: gvkr.Resource, Registered: false, Main: storeOf(rr.ObjectREST), MediaType: mediaType}
+	s := &Served{Name: name, Resource: gvkr.Resource, Registered: false, Main: storeOf(rr.ObjectREST), MainREST: rr.ObjectREST, MediaType: mediaType}
 	if st, ok := rr.SubresourcesREST["status"]; ok {
 		s.Status = storeOf(st)
+		s.StatusRESTv = st
 	}
 	if err := p.complete(s, gvkr.GroupResource()); err != nil {
 		return nil, err
